@@ -21,6 +21,7 @@ import (
 	"time"
 
 	"github.com/fsnotify/fsnotify"
+	oci "github.com/opencontainers/runtime-spec/specs-go"
 	"tags.cncf.io/container-device-interface/pkg/cdi"
 	"verif/harness/hx"
 )
@@ -172,6 +173,45 @@ func c20Answers(c *cdi.Cache) (devs, errs, derrs []string) {
 	return
 }
 
+// c20FirstQuery: one of the query functions, chosen by k, with its answer as a string.
+func c20FirstQuery(c *cdi.Cache, k int, pool []string) (string, string) {
+	vendor := strings.SplitN(c20Kind, "/", 2)[0]
+	switch k % 6 {
+	case 0:
+		var paths []string
+		for _, s := range c.GetVendorSpecs(vendor) {
+			j, _ := json.Marshal(s.Devices)
+			paths = append(paths, s.GetPath()+" "+string(j))
+		}
+		sort.Strings(paths)
+		return "GetVendorSpecs", fmt.Sprint(paths)
+	case 1:
+		return "ListVendors", fmt.Sprint(c.ListVendors())
+	case 2:
+		return "ListClasses", fmt.Sprint(c.ListClasses())
+	case 3:
+		var out []string
+		for _, d := range pool {
+			if dev := c.GetDevice(d); dev != nil {
+				out = append(out, d+"@"+dev.GetSpec().GetPath())
+			}
+		}
+		return "GetDevice", fmt.Sprint(out)
+	case 4:
+		var out []string
+		for _, d := range pool {
+			if un, _ := c.InjectDevices(&oci.Spec{}, d); len(un) == 0 {
+				out = append(out, d)
+			}
+		}
+		return "InjectDevices", fmt.Sprint(out)
+	default:
+		l := c.ListDevices()
+		sort.Strings(l)
+		return "ListDevices", fmt.Sprint(l)
+	}
+}
+
 func c20Options(opts []c20Opt) []cdi.Option {
 	var os_ []cdi.Option
 	for _, o := range opts {
@@ -306,17 +346,35 @@ func c20Child(args []string) int {
 		}
 		return d
 	}
+	seenSet, seenDevs := map[string]bool{}, []string{} // every device name a fresh cache has listed so far
 	observe := func(i int, st c20Step) c20Obs {
 		ob := c20Obs{Step: i}
 		// what a manual-mode fresh cache answers right now: the target the cache under test has to reach by itself
 		tc, _ := cdi.NewCache(append(append([]cdi.Option{}, allOpts...), cdi.WithAutoRefresh(false))...)
 		tdevs, terrs, _ := c20Answers(tc)
+		for _, d := range tdevs {
+			if !seenSet[d] {
+				seenSet[d] = true
+				seenDevs = append(seenDevs, d)
+			}
+		}
 		// The answers come from separate calls (each takes the cache's lock once), so the watch goroutine may slip in
 		// between them: a reading counts only if the same values are read twice in a row, in the order A B C D / D C B A.
+		staleFirst := ""
 		snap := func(reverse bool) string {
 			var devs, errs, derrs []string
 			var tr map[string]bool
 			var has bool
+			// "every query": with automatic refresh on and no watcher (descriptor shortage when the cache was set up) nothing
+			// but the queries themselves keeps the cache current.  The first query after the step is a different one each time;
+			// asked again after ListDevices has answered it must say the same (no watcher exists that could slip in between).
+			if _, has0 := cdi.VerifTracked(cache); auto && !has0 {
+				qn, a1 := c20FirstQuery(cache, i, seenDevs)
+				_ = cache.ListDevices()
+				if _, a2 := c20FirstQuery(cache, i, seenDevs); a1 != a2 && staleFirst == "" {
+					staleFirst = "STALE ANSWER of " + qn + " as the first query after the step: " + a1 + " | asked again after ListDevices: " + a2
+				}
+			}
 			if reverse {
 				tr, has = cdi.VerifTracked(cache)
 				devs, errs, derrs = c20Answers(cache)
@@ -362,6 +420,9 @@ func c20Child(args []string) int {
 		ob.Settled = c20Until(patience(5*time.Second), read)
 		if !ob.Settled {
 			impatient = true
+		}
+		if staleFirst != "" {
+			ob.Devs = append(ob.Devs, staleFirst)
 		}
 		ob.Dirs = cache.GetSpecDirectories()
 		// resources, after the asynchronous teardown of closed watchers
